@@ -263,12 +263,13 @@ class VC:
         """one iteration of the loop from the state `locals_` with the loop target bound to `item`"""
         fi, _, lp, _ = self._loop_parts(qual, loop)
         from .interp import Frame
-        fr = Frame(fi, locals_, module=fi.module, cls_ctx=fi.cls)
-        self.I.frames.append(fr)
-        try:
-            self.I.assign(lp.target, item)
-        finally:
-            self.I.frames.pop()
+        if hasattr(lp, "target"):                       # a `for` loop: bind the loop target; a `while` loop has none (item is ignored)
+            fr = Frame(fi, locals_, module=fi.module, cls_ctx=fi.cls)
+            self.I.frames.append(fr)
+            try:
+                self.I.assign(lp.target, item)
+            finally:
+                self.I.frames.pop()
         return self._run_stmts(fi, lp.body, locals_)
 
     def run_suffix(self, qual, locals_, loop=0):
